@@ -16,7 +16,7 @@ for i, spec in enumerate(sys.argv[3:]):
     parts = spec.split(':')
     prog, func, args = parts[0], parts[1], [int(x) for x in parts[2].split(',') if x != '']
     need.add(prog)
-    j = {'name': '%d-%s' % (i, spec), 'pkg': 'scratch/' + prog, 'func': func, 'args': args, 'opt': {'max_wall_s': maxwall}}
+    j = {'name': '%d-%s' % (i, spec), 'pkg': 'scratch/' + prog, 'func': func, 'args': args, 'opt': {'max_wall_s': maxwall, 'max_steps': int(os.environ.get('VERIF_MAXSTEPS', '5000000'))}}
     if len(parts) > 3 and parts[3] == 'nostats':
         j['opt']['stub'] = ['(*scratch/%s.stringStats).add' % prog, '(*scratch/%s.stringOptionalStats).add' % prog]
     if len(parts) > 3 and parts[3] == 'modeb':
